@@ -34,6 +34,12 @@ CLAIMED = {
     "C03": ("symbolic execution of the real two-phase simplex (solve_lp/_phase1/_phase2/_pivot/_extract) with A structural and b (all reals) or c (multiples of 1/8, unbounded) symbolic; optimality via a fresh-variable z3 query / exact vertex-and-ray enumeration; interior point: exit tests from an arbitrary symbolic interior state",
             "Bounded model checking: for every A in the bound and EVERY right-hand side (resp. every cost vector on the 1/8 lattice): OPTIMAL => tau-feasible point, objective = c.x, no feasible point better, bounded; INFEASIBLE => exactly infeasible; UNBOUNDED => feasible and improving ray; MAX_ITER only at the limit. solve_lp_interior: FEASIBLE/OPTIMAL exits are primal feasible and faithfully scored from ANY interior state (1x1..2x2), optimality gap for 1x1.",
             GEN_NOTE + " Interior point: Newton step cut, convergence not claimed.", "DESIGN.md 4/C03"),
+    "C05": ("programs (CP models built through the public operators/constructors) run through the real Model.solve for solver in {auto,dfs,sat}, fresh and shared model objects, hints, symbolic solution_limit; z3 decides the reference semantics of the same descriptor",
+            "Bounded model checking over a program grammar: every linear expression shape the operators can produce (20 shapes x ==/!=, sampled instantiations), every global constraint, two-constraint programs: every returned assignment is total, in-domain and satisfies the reference formula; INFEASIBLE only if z3 finds no solution; back-ends agree.",
+            GEN_NOTE + " Instantiations of each shape are VERIF_SEED-sampled; no numeric symbolic dimension except solution_limit.", "DESIGN.md 4/C05"),
+    "C06": ("the real SATEncoder runs per program (solve_sat wrapped to capture the clause list); z3 decides over ALL boolean assignments of the produced CNF: exactly-one, soundness (CNF & link & not Phi unsat), completeness (every Phi-solution extends to a CNF model)",
+            "Translation validation by solver: for every program of the grammar sample the CNF has exactly the models of the CP problem (nothing extra incl. auxiliaries, nothing missing), each variable decodes to exactly one value, encoder short-cuts to INFEASIBLE only for unsatisfiable programs.",
+            GEN_NOTE, "DESIGN.md 4/C06"),
     "C07": ("symbolic execution of the real solve_exact_cover/_build_links/_cover/_uncover with every matrix cell a symbolic Bool and max_solutions/max_iter symbolic Ints; z3 model enumeration of exact covers as oracle",
             "Bounded model checking: every 0/1 matrix of the shapes in the bound, secondary subsets, find_all on/off; every returned selection is an exact cover, complete find_all lists all covers once, INFEASIBLE iff none, status mapping for all limit values, links restored after a complete search, cover/uncover inverse law.",
             GEN_NOTE, "DESIGN.md 4/C07"),
